@@ -32,6 +32,8 @@ class FlushSpec(Spec):
             return 'complete'
         if q == COPY:
             return 'write' if argi == 1 else 'complete'
+        if q.endswith(('BufWriter::into_inner', 'BufStream::into_inner')) and argi == 0:
+            return 'unbuffer'        # hands back the file and throws away what the buffer still holds
         if q == '<moved-into-foreign>':
             return 'escape'
         return None
@@ -46,7 +48,7 @@ class FlushSpec(Spec):
         return s
 
     def checkpoint(self, ev):
-        return ev == 'escape'
+        return ev in ('escape', 'unbuffer')
 
 
 def run(facts, strict_wrappers=('bitar::clone_output::CloneOutput',)):
@@ -76,6 +78,11 @@ def run(facts, strict_wrappers=('bitar::clone_output::CloneOutput',)):
                         'what': 'tokio file `%s` written but %s before it is dropped on a success path'
                                 % (rname, 'its last write is never reported (no flush)' if rs == 'Completed'
                                    else 'not completed (no flush/seek/sync)')})
+            for (ev, rs, loc, oc) in r.records:
+                if ev == 'unbuffer' and rs != 'Clean' and oc not in ('Err',):
+                    findings.append({'rule': 'R-FLUSH(a)', 'key': 'R-FLUSH|%s|%s|buffer-discarded' % (b.q, rname), 'function': b.q,
+                                     'what': 'the buffered writer around `%s` is taken apart at %s without having been flushed: into_inner() drops what is '
+                                             'still in the buffer (the last small writes never reach the file)' % (rname, loc)})
             instances.append(inst)
     # de-duplicate findings by key
     seen, out = set(), []
